@@ -115,3 +115,9 @@ Definition too_many_methods (files : list ast) (i : idef) : bool :=
   | None => false
   | Some chain => (op_limit + 1) <? N.of_nat (List.length (flat_map method_names chain))
   end.
+
+(* "a given error name has the same value ... in every derived interface that re-exports it",
+   "a given method has the identical op-code": within one flattened interface a name occurs once
+   (a name declared again further down the chain would carry two numbers) *)
+Definition spec_names_unique {V} (tbl : list (string * list (string * V))) : bool :=
+  forallb (fun row => nodup_str (map fst (snd row))) tbl.
